@@ -26,6 +26,7 @@ PROP = dict(
     # cross-check of the extraction itself: generated (valid and damaged) byte strings decoded by the extracted OCaml
     # model AND inside Coq (vm_compute on Codec/CodecDigest.cd_*); the digests must be equal
     always_cmds=[["tools/x_crosscheck.py", "codec", "--cases", "60"]],
+    thorough_cmds=[["tools/x_crosscheck.py", "codec", "--cases", "400", "--seed", "7"]],
     engines=[dict(
         name="codec", classify=classify,
         quick=dict(cases=24000, shards=4, profiles=["debug", "release"]),
